@@ -44,6 +44,12 @@ CHECKS = {
         text="TLC proves Ordered over all provider scripts of the alphabet and prints one script per distinct predicted run (text, tool calls, malformed JSON, schema-invalid events, HTTP 500, connection reset mid-body, end without [DONE], empty body x tool choices x history modes); the scripted provider plays each against the real router and the run's thread frames must be exactly the predicted sequence (selection, compilation, one side-effects frame per executed lock-path tool, cursor iff completed with a response id, run_ended last and once), the session stream must start with its start frame at seq 0, end with exactly one end frame and be gap-free, run_ended must follow the run's session_ended in file order; 13 further scenarios cover envelopes, no provider, dead endpoint, compile failure, parallel runs and failing / succeeding compaction jobs (job ended at most once).",
         note="Provider behaviour alphabet = six response outcomes x 3-4 call items; byte-level variety belongs to C15.",
         ref="4 C07"),
+    "C08": dict(
+        engine="Threads",
+        technique="TLA+ spec Threads!Compile (cut point, hierarchical checkpoint selection, bundle) model-checked with TLC (BundleSound); Compile printed for every anchor of every reachable thread and of scripted long threads; the real compile entry point replayed with warm caches, after restart and with caches removed and compared with the prediction",
+        text="TLC proves BundleSound on every reachable thread and prints the reference bundle for every anchor message (bounded exploration with messages, run ends from two sessions, checkpoints, side effects; eight scripted threads crossing the 16-message limit, halving over five checkpoints, checkpoints created in non-ascending to_seq order, interleaved replies, 60 x 10 KB messages exceeding the 256 KiB tail window); the real compile entry point must return exactly that cut, decision and bundle (artifact read back: summary refs, messages oldest first, each with the reply of the last run that ended for it) with warm caches, after a restart and with every cache removed before each call; a full scripted-provider run must send exactly the bundle's items.",
+        note="Reply texts are written by the harness as session frames for the model's run_ended frames; the concurrent tail/head read race (D13) is not forced by gates.",
+        ref="4 C08"),
     "C09": dict(
         engine="Threads",
         technique="TLA+ spec Threads (cut points, planner, executor, scheduler as operators over the frame sequence) model-checked with TLC; every (state, compaction request) transition replayed on the real store and compared with the prediction; gate-scheduled concurrent calls",
